@@ -73,6 +73,7 @@ type env struct {
 	initLookups map[string]map[string][]string
 	loaderHands map[string]*simrt.Handle
 	procHands   map[string]*simrt.Handle
+	theApp      *app.App
 }
 
 // ptrKey identifies an object by type and address (distinct zero-size components may share
@@ -380,6 +381,38 @@ func (e *env) buildLoader(s *sdl.Source) configure.Loader {
 		e.loaderHands[s.ID] = h
 		if s.Fault == "error" {
 			e.ctx.Armed["load:"+s.ID+"#*"] = true
+		}
+		if s.Doc2 != nil {
+			h.Data2 = YAML(s.Doc2)
+		}
+		// a bootstrap loader: from inside its first LoadConfig it registers the loaders it spawns
+		var spawned []*sdl.Source
+		for _, o := range e.prog.Sources {
+			if o.SpawnedBy == s.ID && o.Late {
+				spawned = append(spawned, o)
+			}
+		}
+		if len(spawned) != 0 {
+			done := false
+			h.LoaderHook = func() {
+				if done || e.theApp == nil {
+					return
+				}
+				done = true
+				var ls []configure.Loader
+				for _, o := range spawned {
+					ls = append(ls, e.buildLoader(o))
+				}
+				e.ctx.Log("spawn-loaders", s.ID, "")
+				e.theApp.Configure.AddLoaders(ls...)
+			}
+		}
+		if s.ByValue && (s.OrderClass == "ordered" || s.OrderClass == "priority") && len(spawned) == 0 && s.Doc2 == nil {
+			h.Ord = s.Order
+			if s.OrderClass == "priority" {
+				return simrt.ValLoaderP{ValLoaderO: simrt.ValLoaderO{H: h, Data: data}}
+			}
+			return simrt.ValLoaderO{H: h, Data: data}
 		}
 		return simrt.NewSimLoader(s.OrderClass, s.Order, simrt.SimLoader{H: h, Data: data})
 	}
@@ -914,6 +947,7 @@ func (e *env) main(inClose, closeReturned *bool) {
 	}
 	a := app.NewApp()
 	theApp = a
+	e.theApp = a
 	opts := []app.SettingOption{app.SetRegistry(reg), app.SetFactory(fac)}
 	opts = append(opts, cfgOpts...)
 	opts = append(opts, app.SetComponents(ordered...))
@@ -988,12 +1022,14 @@ func (e *env) main(inClose, closeReturned *bool) {
 	// reload: late sources are added and the configuration is initialised a second time
 	if obs.Panic == "" && !obs.RunErr && !ctx.OverBudget {
 		var late []configure.Loader
+		again := false
 		for _, s := range p.Sources {
-			if s.Late {
+			if s.Late && s.SpawnedBy == "" {
 				late = append(late, e.buildLoader(s))
 			}
+			again = again || s.Late || s.Doc2 != nil
 		}
-		if len(late) != 0 {
+		if again {
 			ctx.Log("reload", "", "")
 			func() {
 				defer func() {
@@ -1001,12 +1037,17 @@ func (e *env) main(inClose, closeReturned *bool) {
 						obs.ReloadErr = "panic: " + fmt.Sprint(r)
 					}
 				}()
-				a.Configure.AddLoaders(late...)
+				if len(late) != 0 {
+					a.Configure.AddLoaders(late...)
+				}
 				// loaders whose order is settled late answer with it from now on (all sources are
 				// registered by now; the configuration has not been initialised again yet)
 				for _, s := range p.Sources {
 					if h := e.loaderHands[s.ID]; h != nil && s.Order2 != nil {
 						h.Ord = *s.Order2
+					}
+					if h := e.loaderHands[s.ID]; h != nil && s.Doc2 != nil {
+						h.Data2Active = true // the source's content has changed
 					}
 				}
 				if err := a.Configure.Initialize(); err != nil {
